@@ -198,3 +198,67 @@ func init() {
 	}
 	predicates["kf26Script"] = func(v OracleViolation) bool { return inList(kf26Scripts(), v.Script) }
 }
+
+// ---- regression corpus: the reproducers of the repaired findings, with the result the language defines ----
+
+type regressCase struct {
+	prop, kf, script string
+	mustFail         bool
+	result           string // expected r0 when !mustFail
+}
+
+func regressCorpus() []regressCase {
+	v := func(ty, txt string) string { return "V:" + ty + ":" + hexs(txt) }
+	return []regressCase{
+		{"C13", "KF-1", "foreach x in [1] { 3 += 1; } return 1;", true, ""},
+		{"C13", "KF-1", "if (true) { foreach x in [1] { while (false) { \"s\" -= 2; } } }", true, ""},
+		{"C03", "KF-2", "return (false ? 1 : 3) + 4;", false, v("INTEGER", "7")},
+		{"C03", "KF-2", "x = (Missing ? 1 : 3); y = 4 + 5; return x + y;", false, v("INTEGER", "12")},
+		{"C16", "KF-3", "return \"abc\"[3];", false, v("NULL", "null")},
+		{"C16", "KF-3", "return [\"abc\"[2], \"abc\"[3], \"abc\"[4]];", false, v("ARRAY", "[c, null, null]")},
+		{"C05", "KF-4", "return !(1 == 2);", false, v("BOOLEAN", "true")},
+		{"C05", "KF-4", "x = (2 < 1); return [!x, !!x, !null, !0];", false, v("ARRAY", "[true, false, true, false]")},
+		{"C01", "KF-5", "return 1 && \"x\";", false, v("BOOLEAN", "true")},
+		{"C01", "KF-5", "return [0 || \"\", [] && 1, 2.5 || null];", false, v("ARRAY", "[false, false, true]")},
+		{"C15", "KF-6", "x = 70000; y = x; x++; return [x, y, 70000];", false, v("ARRAY", "[70001, 70000, 70000]")},
+		{"C15", "KF-14", "xs = [1, 2]; n = 0; foreach a in xs { foreach b in xs { n++; } } return n;", false, v("INTEGER", "4")},
+		{"C20", "KF-11", "return OPTIMIZE;", false, v("NULL", "null")},
+		{"C06", "KF-13", "function f(a) { a = 2; return a; } a = 1; f(5); return a;", false, v("INTEGER", "1")},
+		{"C06", "KF-13", "function g() { local a; a = 9; return a; } a = 1; g(); return a;", false, v("INTEGER", "1")},
+		{"C12", "KF-18", "a = true ? 1 + 2 : 3; return a;", false, v("INTEGER", "3")},
+		{"C12", "KF-19", "a = 1; a += 1 + 2; return a;", false, v("INTEGER", "4")},
+		{"C12", "KF-19", "a = 8; a /= 1 + 1; a *= 2 + 1; a -= 1 + 1; return a;", false, v("INTEGER", "10")},
+		{"C13", "KF-20", "foreach x in [1] 7 y = x; }", true, ""},
+		{"C13", "KF-21", "function 3() { return 1; }", true, ""},
+		{"C13", "KF-21", "function f(1, \"a\") { return 1; }", true, ""},
+		{"C13", "KF-21", "function f(a b) { return 1; }", true, ""},
+		{"C13", "KF-21", "foreach 3 in [1] { }", true, ""},
+		{"C14", "KF-22", "return 1;\x00 garbage(", true, ""},
+		{"C17", "KF-24", "return [max(9, 10), min(9, 10), between(5, 1, 10), max(2, 10.5)];", false, v("ARRAY", "[10, 9, true, 10.5]")},
+		{"C13", "KF-34", "switch ( 3 += 1 ) { default { return 1; } }", true, ""},
+		{"C13", "KF-34", "function f() { switch (\"a\" -= 1) { } }", true, ""},
+		{"C02", "KF-34", "switch ( 3 + 1 ) { default { return 1; } } return 2;", false, v("INTEGER", "1")},
+	}
+}
+
+func genRegress(prop string, seed uint64) []GenCase {
+	r := NewRng(seed)
+	var out []GenCase
+	n := 0
+	for _, rc := range regressCorpus() {
+		if rc.prop != prop {
+			continue
+		}
+		for _, opt := range []bool{true, false} {
+			c := Case{ID: fmt.Sprintf("S-regress-%d-%v", n, opt), Script: rc.script, Opt: opt, Fns: []HostFn{recFn()}, Tags: []string{"regress:" + rc.kf},
+				Runs: []Run{{Obj: stdObject(r), Polls: defaultPolls}}}
+			role := "trace::" + rc.result
+			if rc.mustFail {
+				role = "must-fail"
+			}
+			out = append(out, GenCase{Case: c, Stream: "S-regress", NonTrivial: true, Role: role})
+		}
+		n++
+	}
+	return out
+}
